@@ -181,7 +181,7 @@ type c17Artefact struct {
 
 func runC17(r *ev.Run) {
 	// Every block is an epoch, so that expiry, removal and re-registration are within reach.
-	w, err := newWorld(chain.GenesisOptions{EpochInterval: 1})
+	w, err := newWorld(chain.GenesisOptions{EpochInterval: 1, NodeExpirations: []uint64{12, 3, 12}})
 	if err != nil {
 		r.HarnessError("world: %v", err)
 		r.Finish()
@@ -272,10 +272,10 @@ func runC17(r *ev.Run) {
 		os.Exit(0)
 	}
 	depth := 2
-	prefixes := []int{0, 2, 4, 6}
+	prefixes := []int{0, 2, 3, 4}
 	if r.Thorough() {
 		depth = 3
-		prefixes = []int{0, 1, 2, 3, 4, 5, 6, 8}
+		prefixes = []int{0, 1, 2, 3, 4, 5, 6}
 	}
 	var names []string
 	for _, l := range alpha {
